@@ -566,7 +566,7 @@ func runFwdExecution(t *testing.T, w *traceWriter, capacity int, algo string, ne
 
 // ---- seeded generator ----------------------------------------------------------------
 var fwdINames = []string{"/a", "/a/b", "/a/b/c", "/d", "/localhost/x", "/"}
-var fwdDNames = []string{"/a", "/a/b", "/a/b/c", "/a/b/c/e", "/d", "/d/f", "/localhost/x", "/localhost/x/y"}
+var fwdDNames = []string{"/", "/a", "/a/b", "/a/b/c", "/a/b/c/e", "/d", "/d/f", "/localhost/x", "/localhost/x/y"}
 
 func genFwdAct(rng *rand.Rand, x *fwdExec, i, nEv int) fwdAct {
 	switch k := rng.Intn(100); {
